@@ -165,12 +165,16 @@ func (cs *consScen) runReader(consumer sarama.Consumer, rd *reader) {
 	k := cs.r.k
 	op := rd.op
 	if op.ThinkUs > 0 {
-		time.Sleep(time.Duration(op.ThinkUs) * time.Microsecond)
+		cs.r.nap(time.Duration(op.ThinkUs) * time.Microsecond)
 	}
 	pace, stallEvery, stallUs := opInt(op, 0, 0), opInt(op, 1, 0), opInt(op, 2, 0)
 	closeAfter, closeMode, closeAtUs := opInt(op, 3, -1), opInt(op, 4, 0), opInt(op, 5, 0)
 	key := rd.mp.key()
 	leoBefore, logStartBefore := rd.mp.leo, rd.mp.logStart
+	if cs.r.closing() {
+		rd.done = true
+		return
+	}
 	k.logf("ConsumePartition %s offset=%d", key, op.Offset)
 	pc, err := consumer.ConsumePartition(op.Topic, op.Partition, op.Offset)
 	if err != nil {
@@ -232,9 +236,9 @@ loop:
 			cs.onMessage(rd, m)
 			if stallEvery > 0 && rd.delivered%stallEvery == 0 {
 				cs.r.probe("reader-stalled-beyond-max-processing-time")
-				time.Sleep(time.Duration(stallUs) * time.Microsecond)
+				cs.r.nap(time.Duration(stallUs) * time.Microsecond)
 			} else if pace > 0 {
-				time.Sleep(time.Duration(pace) * time.Microsecond)
+				cs.r.nap(time.Duration(pace) * time.Microsecond)
 			}
 		case e, ok := <-errs:
 			if !ok {
@@ -248,6 +252,8 @@ loop:
 			}
 		case <-closeTimer:
 			k.logf("%s close timer", key)
+			break loop
+		case <-cs.r.closeNow:
 			break loop
 		case <-poll.C:
 		}
@@ -415,7 +421,7 @@ func (cs *consScen) judge(final bool) {
 		exp := cs.visible(rd.mp, rd.start)
 		closeAfter := opInt(rd.op, 3, -1)
 		closeAtUs := opInt(rd.op, 5, 0)
-		if final && closeAfter < 0 && closeAtUs == 0 && !rd.outOfRange && rd.delivered < len(exp) {
+		if final && closeAfter < 0 && closeAtUs == 0 && !rd.outOfRange && !cs.r.closing() && rd.delivered < len(exp) {
 			cs.r.violate(cs.progressRule(rd, exp), "%s: reader stopped with %d of %d visible records delivered", rd.mp.key(), rd.delivered, len(exp))
 		}
 		if rd.outOfRange {
